@@ -105,6 +105,7 @@ ForcedN(f, pre, post, e) ==
    CASE e.op = "reset" -> {}
      [] e.op = "restart" -> NodesOf(post)
      [] e.op \in {"reportBound", "foreign", "updateNode"} -> f \cup {e.node}
+     [] e.op = "bad" /\ e.kind = "foreign.move" -> f \cup {e.node}      \* a foreign pod reported on another node: forced as well
      [] e.op = "updateAsk" -> f \cup NodeOfKey(pre, e.key)
      [] e.op = "addNode" -> IF \E m \in ToSet(e.msgs) : m.t = "nodeAccepted" THEN f \ {e.node} ELSE f
      [] OTHER -> f
@@ -520,6 +521,10 @@ KF_ReleaseLinkedReal == Step /\ E.op = "release" /\ E.app \in AppsOf(Pre) /\ E.k
 \* a placeholder that is being replaced is released by anything but the replacement confirmation
 KF_PhReleasedInFlight == Step /\ E.op = "release" /\ E.app \in AppsOf(Pre) /\ E.key \in DOMAIN Pre.apps[E.app].allocs
                         /\ Pre.apps[E.app].allocs[E.key].ph /\ Pre.apps[E.app].allocs[E.key].rel # ""
+\* the placeholder timeout fires for an application that is still Accepted (not all placeholders allocated yet) while one
+\* of its placeholders is being replaced
+KF_PhTimeoutInFlight == Step /\ E.op = "firePhTimer" /\ E.armed /\ E.app \in AppsOf(Pre) /\ Pre.apps[E.app].state = "Accepted"
+      /\ \E k \in DOMAIN Pre.apps[E.app].allocs : Pre.apps[E.app].allocs[k].ph /\ Pre.apps[E.app].allocs[k].rel # ""
 \* the shim confirms a placeholder replacement while the application is Completing
 KF_ConfirmWhileCompleting == IsReplConfirm /\ Pre.apps[E.app].state = "Completing"
 \* a Soft gang application resumes (Resuming -> Accepted) with neither asks nor allocations left
@@ -570,6 +575,7 @@ KFAll == /\ KFHit("KF-C01-REQNODE-UNSCHED", KF_ReqNodeUnsched)
          /\ KFHit("KF-C05-TRACKER-APP-GHOST", KF_TrackerAppGhost)
          /\ KFHit("KF-C04-RELEASE-LINKED-REAL", KF_ReleaseLinkedReal)
          /\ KFHit("KF-C06-PH-RELEASED-INFLIGHT", KF_PhReleasedInFlight)
+         /\ KFHit("KF-C06-PHTIMEOUT-INFLIGHT", KF_PhTimeoutInFlight)
          /\ KFHit("KF-C10-CONFIRM-WHILE-COMPLETING", KF_ConfirmWhileCompleting)
          /\ KFHit("KF-C10-SOFT-RESUME-IDLE", KF_SoftResumeIdle)
          /\ KFHit("KF-C09-RESERVED-ASK-REPLACES", KF_ReservedAskReplaces)
